@@ -220,7 +220,9 @@ func OracleC10() *Oracle {
 			pre := t.Pre.(*c10Snap)
 			post := c10Snapshot(w, w.Height(), w.Env.Tm, true)
 			var out []Finding
-			bad := func(clause, disc, detail string) { out = append(out, Finding{Clause: clause, Disc: disc, Detail: detail}) }
+			bad := func(clause, disc, detail string) {
+				out = append(out, Finding{Clause: clause, Disc: disc, Detail: detail})
+			}
 			// who signed successfully in this block, and which opens succeeded
 			signed := map[string]bool{}
 			openedBy := map[string]string{} // owner address -> module of a successful open
